@@ -11,6 +11,7 @@ import (
 	"github.com/bluenviron/mediamtx/internal/formatlabel"
 	"github.com/bluenviron/mediamtx/internal/logger"
 	"github.com/bluenviron/mediamtx/internal/unit"
+	"github.com/bluenviron/mediamtx/internal/verifhook"
 )
 
 func formatMPEG4AudioConfig(asc *mpeg4audio.AudioSpecificConfig) string {
@@ -173,6 +174,8 @@ func (ss *SubStream) WriteUnit(inMedia *description.Media, inFormat format.Forma
 	if ss.Stream.subStream != ss {
 		return
 	}
+
+	verifhook.Point("stream.SubStream.WriteUnit.afterGuard")
 
 	ssm := ss.medias[inMedia]
 	ssf := ssm.formats[inFormat]
